@@ -403,7 +403,25 @@ pub fn codec_vectors(out: &mut dyn Write, tier: &str, seed: u64) -> J {
                     let sod = if all { i as u32 } else { rng.below(86400) as u32 };
                     let (h, mi, s) = ((sod / 3600) as u8, ((sod % 3600) / 60) as u8, (sod % 60) as u8);
                     cnt += 1;
-                    let ts = Timestamp::from_calendar(y, mo, d, h, mi, s).unwrap();
+                    let leap = (y % 4 == 0 && y % 100 != 0) || y % 400 == 0;
+                    let dim = match mo {
+                        2 => if leap { 29 } else { 28 },
+                        4 | 6 | 9 | 11 => 30,
+                        _ => 31,
+                    };
+                    let ts = match Timestamp::from_calendar(y, mo, d, h, mi, s) {
+                        Ok(ts) => ts,
+                        Err(_) => {
+                            // refusing a day the calendar does not have is fine; refusing a real one is not
+                            if d <= dim {
+                                calbad += 1;
+                                if bad.len() < 5 {
+                                    bad.push(json!([y, mo, d, h, mi, s]));
+                                }
+                            }
+                            continue;
+                        }
+                    };
                     let b = ts.serialize_to_fat();
                     let back = Timestamp::from_fat(u16::from_le_bytes([b[2], b[3]]), u16::from_le_bytes([b[0], b[1]]));
                     let (wd, wt) = crate::vals::calendar_to_fat(y, mo, d, h, mi, s);
